@@ -533,6 +533,37 @@ func c16Commit(c *ctx) {
 								restOK = true
 							}
 						}
+						// the other orientation: for i := range secrets { parts[i+1] = secrets[i] }
+						if vt.Op == "[]" && vt.Args[0].Key() == secrets.Key() && vt.Args[1].V != nil {
+							if ls := loopIdx(core.Strip(vt.Args[1].V)); ls != nil && ls.Lo == 0 && !ls.HiIncl {
+								ht := core.TermOf(ls.Hi)
+								pt := core.TermOf(ia.Index)
+								plus1 := pt.Op == "bin+" && ((pt.Args[0].Key() == vt.Args[1].Key() && constIs(pt.Args[1], 1)) || (pt.Args[1].Key() == vt.Args[1].Key() && constIs(pt.Args[0], 1)))
+								every := true
+								for _, la := range ls.Latches() {
+									if !st.Block().Dominates(la) {
+										every = false
+									}
+								}
+								if plus1 && every && ht.Op == "call:len" && ht.Args[0].Key() == secrets.Key() {
+									restOK = true
+								}
+							}
+						}
+					}
+				}
+			}
+			// or one copy: copy(parts[1:], secrets)
+			for _, cs := range core.Calls(fn) {
+				call, isC := cs.(*ssa.Call)
+				if !isC {
+					continue
+				}
+				if bi, isB := call.Call.Value.(*ssa.Builtin); isB && bi.Name() == "copy" {
+					if ds, isSl := core.Strip(call.Call.Args[0]).(*ssa.Slice); isSl && core.Strip(ds.X) == ssa.Value(parts) && ds.High == nil && ds.Low != nil {
+						if k, isK := core.ConstInt(ds.Low); isK && k == 1 && core.TermOf(call.Call.Args[1]).Key() == secrets.Key() {
+							restOK = true
+						}
 					}
 				}
 			}
